@@ -329,3 +329,41 @@ V('c02-wrong-error-class', 'C02', 'C02.R1',
 V('c02-methodcall-unwrapped', 'C02', 'C02.R4',
   (OPSF, "                output_params[p[0]] = rsp_cimvalue(\n                    _format(\"PARAMVALUE {0!A}\", p[0]), p[2], p[1])", "                output_params[p[0]] = cimvalue(p[2], p[1])"),
   '_methodcall')
+
+# ---- C16 / C17 --------------------------------------------------------------
+LSF = 'pywbem/_listener.py'
+V('c16-queue-before-join', 'C16', 'C16.R2',
+  [(LSF, "                    clr_count)\n\n        # Tolerate that callback thread has already stopped, just in case.", "                    clr_count)\n            self._ind_queue = None\n\n        # Tolerate that callback thread has already stopped, just in case."),
+   (LSF, "        # The queue is released only after the callback thread has ended,\n        # because that thread accesses it until then.\n        self._ind_queue = None\n", "")],
+  'before-join')
+V('c16-stop-order', 'C16', 'C16.R2',
+  (LSF, "        self._stop_listener_threads()\n        self._stop_indication_delivery()\n", "        self._stop_indication_delivery()\n        self._stop_listener_threads()\n"), 'stop-order')
+V('c16-blocking-put', 'C16', 'C16.R3',
+  (LSF, "            self._ind_queue.put(queue_item, block=False)", "            self._ind_queue.put(queue_item, block=True, timeout=1)"), 'blocking')
+V('c16-full-swallowed', 'C16', 'C16.R3',
+  (LSF, "                    self.max_ind_queue_size)\n                self._queue_full = True\n            raise\n", "                    self.max_ind_queue_size)\n                self._queue_full = True\n"), 'full-swallowed')
+V('c16-callback-unprotected', 'C16', 'C16.R5',
+  (LSF, "            try:\n                callback(indication, host)\n            except Exception as exc:  # pylint: disable=broad-except", "            try:\n                callback(indication, host)\n            except ValueError as exc:  # pylint: disable=broad-except"), 'not-isolated')
+V('c16-ack-before-enqueue', 'C16', 'C16.R3',
+  (LSF, "            listener = self.server.listener\n            try:", "            listener = self.server.listener\n            if listener.ind_queue_empty():\n                self.send_success_response(msgid, methodname, indication_inst)\n                listener._handle_indication(indication_inst, self.client_address[0], msgid)\n                return\n            try:"),
+  'ack-before-enqueue')
+V('c16-no-join', 'C16', 'C16.R2',
+  (LSF, "            self._https_thread.join()\n", ""), 'shutdown-order')
+V('c16-field-not-reset', 'C16', 'C16.R6',
+  (LSF, "            self.logger.info(\"Stopped callback thread\")\n            self._callback_thread = None\n", "            self.logger.info(\"Stopped callback thread\")\n"), '')
+V('c17-content-length', 'C17', 'C17.R2',
+  (LSF, "        try:\n            content_len = int(content_len_str)\n        except ValueError:\n            content_len = -1\n", "        content_len = int(content_len_str)\n"), 'ValueError')
+V('c17-crlf', 'C17', 'C17.R3',
+  (LSF, "            cim_error_details = \\\n                cim_error_details.replace('\\r', ' ').replace('\\n', ' ')\n", ""), 'crlf')
+V('c17-double-response', 'C17', 'C17.R1',
+  (LSF, "                    _format(\"Indication queue is full (size {0})\",\n                            listener.max_ind_queue_size))\n                return\n", "                    _format(\"Indication queue is full (size {0})\",\n                            listener.max_ind_queue_size))\n"), 'path-count')
+V('c17-no-response', 'C17', 'C17.R1',
+  (LSF, "        except CIMVersionError as exc:\n            self.send_http_error(400, \"unsupported-version\", str(exc))\n            return", "        except CIMVersionError as exc:\n            return"), 'path-count')
+V('c17-unhandled-version-error', 'C17', 'C17.R2',
+  (LSF, "        except DTDVersionError as exc:\n            self.send_http_error(400, \"unsupported-dtd-version\", str(exc))\n            return\n", ""), 'DTDVersionError')
+V('c17-verb', 'C17', 'C17.R4',
+  (LSF, "    def do_PATCH(self):\n        \"\"\"Invalid method for listener\"\"\"\n        self.invalid_method()", "    def do_PATCH(self):\n        \"\"\"Invalid method for listener\"\"\"\n        self.send_response(200)"), 'PATCH')
+V('c17-header-order', 'C17', 'C17.R1',
+  (LSF, "        self.send_header(\"Content-Type\", \"text/xml\")\n        self.send_header(\"Content-Length\", str(len(resp_body)))\n        self.send_header(\"CIMExport\", \"MethodResponse\")\n        self.end_headers()\n        self.wfile.write(resp_body)\n\n    @staticmethod",
+        "        self.send_header(\"Content-Type\", \"text/xml\")\n        self.send_header(\"Content-Length\", str(len(resp_body)))\n        self.end_headers()\n        self.send_header(\"CIMExport\", \"MethodResponse\")\n        self.wfile.write(resp_body)\n\n    @staticmethod"),
+  'sequence')
